@@ -173,7 +173,7 @@ void FaceSet::identifyExternalFace(void) {
     // NB: We assume the graph is 4-planar orthogonal.
     // Begin by grabbing any Node u of maximal x-coord.
     Node_SP u = nullptr;
-    double max_x = std::numeric_limits<double>::min();
+    double max_x = std::numeric_limits<double>::lowest();
     for (auto pair : m_graph->getNodeLookup()) {
         Node_SP &v = pair.second;
         Point p = v->getCentre();
